@@ -191,6 +191,38 @@ Example c14_gate_example :
   is_fetch_authorized_from_cache true OP_QUERY [67] [] k = true.
 Proof. vm_compute. repeat split. Qed.
 
+(* T9c: the rule is chosen by the operation type of the FETCH, not of the request: with the cache
+   seeded from the collector, a fetch of the plan is held back iff the rule for its own type says so
+   (query: all root fields denied; mutation / subscription: any); the request's operation type is
+   used only for a fetch that carries none, and is otherwise irrelevant -- a query-typed nested
+   _entities fetch below a mutation keeps the query rule *)
+Theorem fetch_gate_fetch_type :
+  forall (p : plan) (d : bytes -> bytes -> bool) (ft : fetchinfo) (request_op : N), In ft (pl_fetches p) ->
+    is_fetch_authorized true request_op ft (seed d (collect_coordinates p))
+    = negb (must_not_send (if ft_op ft =? OP_UNKNOWN then request_op else ft_op ft)
+                          (map (fun r => (rf_rule r, d (rf_type r) (rf_field r))) (ft_roots ft))).
+Proof. exact fetch_gate_fetch_type_lemma. Qed.
+Print Assumptions fetch_gate_fetch_type.
+Theorem fetch_gate_request_type_irrelevant_for_typed_fetch :
+  forall (ft : fetchinfo) (k : cache) (request_op1 request_op2 : N), ft_op ft <> OP_UNKNOWN ->
+    is_fetch_authorized true request_op1 ft k = is_fetch_authorized true request_op2 ft k.
+Proof. exact fetch_gate_request_type_irrelevant. Qed.
+Print Assumptions fetch_gate_request_type_irrelevant_for_typed_fetch.
+Example c14_gate_fetch_type_example :
+  let deny_x := fun (_ f : bytes) => bytes_eqb f [120] in
+  let roots := [{| rf_type := [85]; rf_field := [121]; rf_rule := true |}; {| rf_type := [85]; rf_field := [120]; rf_rule := true |}] in
+  let nested := {| ft_ds := [67]; ft_op := OP_QUERY; ft_roots := roots |} in
+  let p := {| pl_op := OP_MUTATION; pl_fetches := [nested]; pl_root := PLeaf |} in
+  let k := seed deny_x (collect_coordinates p) in
+  (* U.y allowed, U.x denied: the query-typed nested fetch is sent although the request is a mutation ... *)
+  is_fetch_authorized true OP_MUTATION nested k = true /\
+  (* ... a mutation-typed fetch with the same root fields is not, whatever the request says ... *)
+  is_fetch_authorized true OP_QUERY {| ft_ds := [67]; ft_op := OP_MUTATION; ft_roots := roots |} k = false /\
+  (* ... and only a fetch without a type of its own follows the request *)
+  is_fetch_authorized true OP_MUTATION {| ft_ds := [67]; ft_op := OP_UNKNOWN; ft_roots := roots |} k = false /\
+  is_fetch_authorized true OP_QUERY {| ft_ds := [67]; ft_op := OP_UNKNOWN; ft_roots := roots |} k = true.
+Proof. vm_compute. repeat split. Qed.
+
 (* ------------------------------------------------------------------ coordinate per mode *)
 (* T10: pre-fetch mode authorizes under the plan-time type, post-fetch mode under the runtime
    __typename of the enclosing object (plan-time type when the data has none) *)
